@@ -199,7 +199,9 @@ func leaves(v interface{}, into map[string]bool) {
 }
 
 var c09FaultKinds = []string{"transport", "errors", "short", "long", "nulldata", "nonode", "node_not_map", "node_empty_list", "node_list", "node_number", "node_bool", "wrong_shape",
-	"deep_obj_to_empty_list", "deep_obj_to_list", "deep_obj_to_scalar", "deep_list_to_obj", "deep_list_to_scalar"}
+	"deep_obj_to_empty_list", "deep_obj_to_list", "deep_obj_to_scalar", "deep_list_to_obj", "deep_list_to_scalar",
+	// a failing element whose errors are all blank (`[{}]`, `[{"message":""}]`): still a failure, still to be reported
+	"blank_error", "blank_errors_with_data"}
 
 func isFailureSignal(k string) bool { return k != "wrong_shape" && !strings.HasPrefix(k, "deep_") }
 
@@ -390,7 +392,7 @@ func driveC09(seed int64, tier, out, replay string) {
 	}
 	obs.Evaluations = idx
 	obs.DistinctNontrivial = len(distinct)
-	obs.Rule = "component: scripted downstream answers (transport error, statuses, non-JSON, any JSON shape, arrays of length n-1/n/n+1 with elements from a pool of well- and ill-formed response objects) to the real MultiOpQueryer; gateway level: for generated worlds/operations every single fault (8 kinds) x service x call x batch position (<=4 sites per operation in the quick tier) injected at the evaluating fakes, then a fault-free re-run; distinct by (answer) resp. (world, operation, site, kind)"
+	obs.Rule = "component: scripted downstream answers (transport error, statuses, non-JSON, any JSON shape, arrays of length n-1/n/n+1 with elements from a pool of well- and ill-formed response objects) to the real MultiOpQueryer; gateway level: for generated worlds/operations every single fault (19 kinds, two of them failing elements whose errors carry no message, extensions or path) x service x call x batch position (<=4 sites per operation in the quick tier) injected at the evaluating fakes, then a fault-free re-run; distinct by (answer) resp. (world, operation, site, kind)"
 	hx.WriteCases(out, "From Pebbles Require Import Base.Json Net.Decode Net.Faults Corr.C09.\nFrom Coq Require Import List String. Import ListNotations.\nOpen Scope string_scope.\n", "c9case", coq, "mismatches")
 	obs.Write(out)
 }
